@@ -51,7 +51,7 @@ impl Property for C28 {
 
     fn runs(&self, tier: Tier) -> u64 {
         match tier {
-            Tier::Quick => 5 * 160,
+            Tier::Quick => 5 * 640,
             Tier::Thorough => 5 * 12_000,
         }
     }
